@@ -74,10 +74,10 @@ TIERS = {
             ('inits-n2-d4', dict(n=2, depth=4, maxopen=1, forms='FormsSmall',
                                  inits=('empty', 'foreign'))),
             ('overlap-n2-d5', dict(n=2, depth=5, maxopen=2, forms='FormsPos',
-                                   inits=('absent',))),
+                                   inits=('absent',), copies=0)),
         ],
         'design': ['core-n2-d5'],
-        'replay_seconds': 40,
+        'replay_seconds': 35,
         'killmatrix': {'ns': (3,), 'reverse': False, 'double': False},
         'random': 400,
         'randkills': 0,
@@ -85,15 +85,15 @@ TIERS = {
     'thorough': {
         'bfs': [
             ('core-n3-d7', dict(n=3, depth=7, maxopen=1, forms='FormsPos', inits=('absent',))),
-            ('forms-n3-d6', dict(n=3, depth=6, maxopen=1, forms='FormsSmall', inits=('absent',))),
+            ('forms-n3-d5', dict(n=3, depth=5, maxopen=1, forms='FormsSmall', inits=('absent',))),
             ('allforms-n2-d5', dict(n=2, depth=5, maxopen=1, forms='FormsEdge',
-                                    inits=('absent',), copies=2)),
+                                    inits=('absent',))),
             ('inits-n2-d5', dict(n=2, depth=5, maxopen=1, forms='FormsSmall',
                                  inits=('empty', 'foreign'))),
             ('overlap-n2-d6', dict(n=2, depth=6, maxopen=2, forms='FormsPos',
-                                   inits=('absent',))),
+                                   inits=('absent',), copies=0)),
         ],
-        'design': ['core-n3-d7', 'forms-n3-d6', 'overlap-n2-d6'],
+        'design': ['core-n3-d7', 'forms-n3-d5', 'overlap-n2-d6'],
         'replay_seconds': 420,
         'killmatrix': {'ns': (3, 5), 'reverse': True, 'double': True},
         'random': 6000,
@@ -333,12 +333,14 @@ def _act(a, h=0, i=0, np_=False, reuse=False, clear=False):
     return {'a': a, 'h': h, 'i': i, 'np': np_, 'reuse': reuse, 'clear': clear}
 
 
-def random_kill(path, n, clear, delay):
+def random_kill(path, n, clear, delay, phase='store'):
     """A free-running writer (open, then store examples 0..n-1) is SIGKILLed
-    after `delay` seconds; then a new dataset is opened with reuse=True, reads
-    every example and is released (clear=True).  Returns what was acknowledged
-    by the writer, the state of the directory and the reader's observation.
-    delay=None: calibration - returns how long the writer needs for everything."""
+    `delay` seconds after its start (phase 'open') or after it acknowledged
+    its Open (phase 'store'); then a new dataset is opened with reuse=True,
+    reads every example and is released (clear=True).  Returns what was
+    acknowledged by the writer, the state of the directory and the reader's
+    observation.  delay=None: calibration - returns how long the writer needs
+    for its Open and for all its stores."""
     _prepare_dir(path, 'absent')
     calls = [0] * n
     steps = [_act('open', reuse=False, clear=clear)] + [_act('access', h=1, i=i) for i in range(n)]
@@ -353,13 +355,17 @@ def random_kill(path, n, clear, delay):
     os.close(w_res)
     t0 = time.time()
     span = None
+    buf = [b'']
     try:
         if delay is None:
-            buf = [b'']
-            for _ in steps:
+            _read_line(r_res, buf, 60)
+            t1 = time.time()
+            for _ in steps[1:]:
                 _read_line(r_res, buf, 60)
-            span = time.time() - t0
+            span = (t1 - t0, time.time() - t1)
         else:
+            if phase == 'store':
+                buf[0] = os.read(r_res, 65536)          # blocks until Open is acknowledged
             time.sleep(delay)
         os.kill(pid, signal.SIGKILL)
     finally:
@@ -373,7 +379,7 @@ def random_kill(path, n, clear, delay):
         os.close(r_res)
         shutil.rmtree(path, ignore_errors=True)
         return {'span': span}
-    data = b''
+    data = buf[0]
     while True:
         chunk = os.read(r_res, 65536)
         if not chunk:
@@ -449,7 +455,7 @@ def _exec_chunk(chunk):
             if job['kind'] == 'life':
                 out.append({'obs': execute(job['n'], job['init'], job['hist'], path)})
             else:
-                out.append(random_kill(path, job['n'], job['clear'], job['delay']))
+                out.append(random_kill(path, job['n'], job['clear'], job['delay'], job['phase']))
         except BaseException as e:
             out.append({'error': f'{type(e).__name__}: {e}'})
         finally:
@@ -654,6 +660,8 @@ def _unfixed():
     an open finding whose match names the mechanism np-int-key switches the
     model of that defect on, whatever its id is."""
     ids = list(common.unfixed_ids())
+    # VERIF_UNFIXED_EXTRA=C11-NPKEY: model a not yet recorded defect as original
+    ids += [x for x in os.environ.get('VERIF_UNFIXED_EXTRA', '').split(',') if x and x not in ids]
     for f in common.load_findings()['findings']:
         m = f.get('match') or {}
         if (f['status'] == 'open' and m.get('family') == 'diskcache'
@@ -684,10 +692,14 @@ def run(prop, tier):
     plan = TIERS[tier]
     rng = random.Random(common.seed())
     sc = _scratch()
+    os.makedirs(sc, exist_ok=True)
     before = set(os.listdir(sc))
     info = {'scratch_on_tmpfs': sc.startswith('/dev/shm')}
     root = tempfile.mkdtemp(prefix='c11-', dir=sc)
+    jopts = os.environ.get('JAVA_TOOL_OPTIONS')
     try:
+        # the folds over a long history (writer of 30 stores + reader) recurse deeply in TLC
+        os.environ['JAVA_TOOL_OPTIONS'] = ((jopts or '') + ' -Xss64m').strip()
         _patch_disk_usage(root, info)
         return _run(prop, tier, res, plan, rng, root, info)
     except tlc.TlcError as e:
@@ -695,8 +707,17 @@ def run(prop, tier):
         return res.finish()
     finally:
         shutil.disk_usage = _real_disk_usage
+        if jopts is None:
+            os.environ.pop('JAVA_TOOL_OPTIONS', None)
+        else:
+            os.environ['JAVA_TOOL_OPTIONS'] = jopts
         for fn in set(os.listdir(sc)) - before:     # main.py leaves through os._exit
             shutil.rmtree(os.path.join(sc, fn), ignore_errors=True)
+        if info['scratch_on_tmpfs']:
+            try:
+                os.rmdir(sc)        # only if empty; common.scratch() users re-create it
+            except OSError:
+                pass
 
 
 def _run(prop, tier, res, plan, rng, root, info):
@@ -745,14 +766,22 @@ def _run(prop, tier, res, plan, rng, root, info):
           for _ in range(plan['random'])]
     rk = []
     if plan['randkills']:
-        nrk = 12
+        nrk = 30
         warnings.simplefilter('ignore')
+        import diskcache  # noqa: F401  (so that the forked writer does not pay the imports)
+        import lazy_dataset  # noqa: F401
+        import numpy  # noqa: F401
         random_kill(os.path.join(root, 'calib'), nrk, False, None)          # warm up
-        span = max(0.002, min(random_kill(os.path.join(root, 'calib'), nrk, False, None)['span']
-                              for _ in range(3)))
-        info['randkill_writer_span_ms'] = round(span * 1000, 1)
-        rk = [{'kind': 'randkill', 'src': 'randkill', 'n': nrk, 'clear': rng.random() < 0.5,
-               'delay': rng.random() * span * 1.3, 'mv': None} for _ in range(plan['randkills'])]
+        cal = [random_kill(os.path.join(root, 'calib'), nrk, False, None)['span'] for _ in range(3)]
+        t_open = max(0.001, min(c[0] for c in cal))
+        t_store = max(0.001, min(c[1] for c in cal))
+        info['randkill_writer_open_ms'] = round(t_open * 1000, 2)
+        info['randkill_writer_stores_ms'] = round(t_store * 1000, 2)
+        for _ in range(plan['randkills']):
+            ph = 'open' if rng.random() < 0.2 else 'store'
+            rk.append({'kind': 'randkill', 'src': 'randkill', 'n': nrk, 'clear': rng.random() < 0.5,
+                       'phase': ph, 'mv': None,
+                       'delay': rng.random() * (t_open * 1.5 if ph == 'open' else t_store * 0.8)})
     jobs = km + rl + rk + jobs
 
     # ---- spec -> code: replay on real directories --------------------------
@@ -798,9 +827,10 @@ def _run(prop, tier, res, plan, rng, root, info):
     kills = {'deterministic_kills': 0, 'random_instant_kills': 0,
              'random_explained_by_death_before_store': 0,
              'random_explained_by_death_after_store': 0, 'random_died_inside_open': 0,
-             'lifecycles_with_kill': 0}
+             'lifecycles_with_kill': 0, 'random_acked_steps_histogram': {}}
     silent = 0
     nontrivial = 0
+    pending = {}               # (finding id | None, clause, mech) -> [(len, what, replay)]
     for ji in sorted(per_job):
         job = executed[ji]
         cands = per_job[ji]
@@ -808,6 +838,9 @@ def _run(prop, tier, res, plan, rng, root, info):
                 if v['C11'][0] != 'viol' and v['conf'] == 'conforms']
         if job['kind'] == 'randkill':
             kills['random_instant_kills'] += 1
+            na = str(len(outs[ji]['acks']))      # 0 = died inside Open, k = Open + k-1 stores
+            kills['random_acked_steps_histogram'][na] = \
+                kills['random_acked_steps_histogram'].get(na, 0) + 1
             if not outs[ji]['acks']:
                 kills['random_died_inside_open'] += 1
             elif good:
@@ -850,23 +883,31 @@ def _run(prop, tier, res, plan, rng, root, info):
                     + short_obs(rec['obs']))
             if kf is not None:
                 known[kf['id']] = known.get(kf['id'], 0) + 1
-                if known[kf['id']] == 1:
-                    res.known_finding(kf['id'], kf['what'] + ' (same mechanism through '
-                                      'DiskCacheDataset) e.g. ' + what)
             else:
-                cat = (clause, v['mech'])
-                reported[cat] = reported.get(cat, 0) + 1
-                if reported[cat] <= 3 and len(res.violations) < 25:
-                    res.violation(what, {
-                        'family': 'diskcache', 'kind': job['kind'], 'n': rec['n'],
-                        'init': rec['init'], 'hist': rec['hist'], 'obs': rec['obs'],
-                        'verdict': v, 'model_verdict': mv,
-                        'randkill': ({'clear': job['clear'], 'delay': job['delay']}
-                                     if job['kind'] == 'randkill' else None),
-                        'how': 'real observation judged by TLC (DiskCacheTrace.tla)'})
+                reported[(clause, v['mech'])] = reported.get((clause, v['mech']), 0) + 1
+            pending.setdefault((kf['id'] if kf else None, clause, v['mech']), []).append(
+                (len(rec['hist']), what, {
+                    'family': 'diskcache', 'kind': job['kind'], 'n': rec['n'],
+                    'init': rec['init'], 'hist': rec['hist'], 'obs': rec['obs'],
+                    'verdict': v, 'model_verdict': mv,
+                    'randkill': ({'clear': job['clear'], 'delay': job['delay'],
+                                  'phase': job['phase']}
+                                 if job['kind'] == 'randkill' else None),
+                    'how': 'real observation judged by TLC (DiskCacheTrace.tla)'}))
         elif mv and mv['st'] == 'viol':
             res.drift.append({'where': 'model-verdict', 'lifecycle': short(rec['hist']),
                               'model': [mv['st'], mv['clause'], mv['mech']]})
+    # report the SHORTEST failing lifecycles of every category
+    for (fid, clause, mech), items in sorted(pending.items(), key=lambda kv: str(kv[0])):
+        items.sort(key=lambda x: (x[0], x[1]))
+        if fid is not None:
+            kf = match_finding(mech)
+            res.known_finding(fid, kf['what'] + ' (same mechanism through DiskCacheDataset) '
+                              'e.g. ' + items[0][1])
+        else:
+            for _, what, rp in items[:3]:
+                if len(res.violations) < 25:
+                    res.violation(what, rp)
     if not samples and records:
         samples.append({'lifecycle': short(records[0]['hist']),
                         'verdict': list(verdicts[records[0]['id']]['C11'])})
@@ -928,7 +969,8 @@ def replay(prop, path):
         if rp.get('kind') == 'randkill':
             records = []
             for k in range(40):
-                out = random_kill(d, rp['n'], rp['randkill']['clear'], rp['randkill']['delay'])
+                out = random_kill(d, rp['n'], rp['randkill']['clear'], rp['randkill']['delay'],
+                                  rp['randkill'].get('phase', 'store'))
                 for c in randkill_candidates(rp['n'], rp, out):
                     records.append(dict(c, id=len(records) + 1, run=k))
                 shutil.rmtree(d, ignore_errors=True)
